@@ -111,8 +111,22 @@ def get_rule(rg, repo, rel):
             en = descr(crate, tail_of(crate.body(m["end"])["value"]))
             sl = get_slices(crate, crate.body(m["get"])["value"])
             bad = None
+            stt = descr(crate, tail_of(crate.body(m["start"])["value"]))
+            adt = crate.item(strip_generics(im.self_ty.split("<")[0])) or crate.item(im.self_ty.split("<")[0])
+            fields = set()
+            for it_ in crate.item_list:
+                if it_.get("kind") == "Struct" and it_["id"] == im.self_ty.split("<")[0]:
+                    fields = {f["name"] for f in it_["variants"][0]["fields"]}
             if cu != bo:
                 bad = "cursor() hands out %s but byte_offset() reads %s" % (cu, bo)
+            elif stt == bo:
+                bad = "start() returns the moving cursor (%s): SOI / at_start would hold wherever the cursor is" % stt
+            elif "start" in fields and stt != "self.start":
+                bad = "start() returns %s, not the `start` field the conversions fill in (R08-CONV)" % stt
+            elif "start" not in fields and stt != "0":
+                bad = "start() returns %s; an input without a start field starts at 0" % stt
+            elif "end" in fields and en != "self.end":
+                bad = "end() returns %s, not the `end` field the conversions fill in (R08-CONV)" % en
             elif not sl:
                 bad = "get() does not slice the input"
             else:
